@@ -1,6 +1,7 @@
 (* C09 driver.  One case per line:
      <id> <style> <accept> <items> <decos>
    style  : p (prefix '*', default format) | x (enclosed, "%x% = #") | s (separated, "[ ] = #")
+            | y (enclosed with distinct delimiters "[x] = #": option lists only)
    accept : "N" or "s"<hex>
    items  : forest of (o:<name>:<value>) and (s:<name>:<items>), "~" = none;
             name/value = comma separated chunks, each <hex> or <hexbyte>*<count>, may be empty
@@ -101,7 +102,7 @@ let () =
   List.iter (fun line ->
     match split_ws line with
     | id :: st :: acc :: items :: decos :: _ ->
-      let style = (match st with "p" -> StPre | "x" -> StEnc | _ -> StSep) in
+      let style = (match st with "p" -> StPre | "x" -> StEnc | "y" -> StEncD | _ -> StSep) in
       let (_, al) = parse_accept allow_init (cstr acc) in
       let its = parse_items items in
       let ds = parse_decos decos in
